@@ -89,8 +89,11 @@ fn main() {
                 let (loc, msg) = LAST_PANIC.lock().ok().and_then(|g| g.clone()).unwrap_or_default();
                 let file = loc.rsplit_once(':').map(|x| x.0.to_string()).unwrap_or(loc.clone());
                 let profile = if overflow_checks_on() { "overflow-checks-on" } else { "overflow-checks-off" };
-                let v = if file.starts_with("/repo/src/") {
-                    Violation::new(&args[2], "crate", "refused-valid", format!("panic in {} build:{}: {}", file.trim_start_matches("/repo/"), profile, trunc(msg, 80)), format!("escaped from a directed (unguarded) part of the check at {}", loc))
+                // harness files are relative paths (workspace root package); dependencies live in the
+                // cargo registry, std under /rustc: any other absolute path is the crate under test
+                let in_crate = file.starts_with('/') && !file.contains("/.cargo/") && !file.contains("/rustc/") && !file.contains("/rustlib/");
+                let v = if in_crate {
+                    Violation::new(&args[2], "crate", "refused-valid", format!("panic in {} build:{}: {}", file.rsplit_once("/src/").map(|x| format!("src/{}", x.1)).unwrap_or(file.clone()), profile, trunc(msg, 80)), format!("escaped from a directed (unguarded) part of the check at {}", loc))
                 } else {
                     Violation::new(&args[2], "harness", "harness-panic", format!("escaped panic at {}", loc), trunc(msg, 200))
                 };
